@@ -39,7 +39,10 @@ type regFeat struct {
 
 // the announced trees (harness configuration; the Lean driver has the same tables)
 var regRemoteFeats = []regFeat{{"0", 0, 100, "special"}, {"1", 1, 1, "client"}, {"1", 2, 2, "client"}, {"1", 3, 0, "client"},
-	{"1", 4, 1, "server"}, {"2", 1, 1, "client"}}
+	{"1", 4, 1, "server"}, {"2", 1, 1, "client"}, {"1.1", 1, 1, "client"}, {"1.1", 4, 1, "server"}}
+
+// the entities every peer announces: [1,1] is a sub-entity of [1]
+var regRemoteEnts = []string{"0", "1", "1.1", "2"}
 var regLocalFeats = []regFeat{{"0", 0, 100, "special"}, {"0", 1, 3, "server"}, {"1", 1, 1, "server"}, {"1", 2, 2, "server"},
 	{"1", 3, 1, "client"}, {"2", 1, 1, "server"}, {"2", 2, 4, "server"}}
 
@@ -181,7 +184,7 @@ func regParseEnt(s string) []uint {
 }
 
 func regDiscovery(dev string, state *model.NetworkManagementStateChangeType, ents []string) *model.NodeManagementDetailedDiscoveryDataType {
-	etype := map[string]model.EntityTypeType{"0": model.EntityTypeTypeDeviceInformation, "1": model.EntityTypeTypeEVSE, "2": model.EntityTypeTypeEV}
+	etype := map[string]model.EntityTypeType{"0": model.EntityTypeTypeDeviceInformation, "1": model.EntityTypeTypeEVSE, "2": model.EntityTypeTypeEV, "1.1": model.EntityTypeTypeEV}
 	dd := &model.NodeManagementDetailedDiscoveryDataType{
 		DeviceInformation: &model.NodeManagementDetailedDiscoveryDeviceInformationType{Description: &model.NetworkManagementDeviceDescriptionDataType{DeviceAddress: &model.DeviceAddressType{Device: util.Ptr(model.AddressDeviceType(dev))}}},
 	}
@@ -241,7 +244,7 @@ func newRegWorldTd(npeers int, ev *regEvents, base int, td bool) *regWorld {
 		cl := model.CmdClassifierTypeReply
 		w.inject(p, model.DatagramType{Header: model.HeaderType{AddressSource: h.FA(regDev(p), []uint{0}, 0), AddressDestination: h.FA("HEMS", []uint{0}, 0),
 			MsgCounter: util.Ptr(model.MsgCounterType(1)), MsgCounterReference: util.Ptr(model.MsgCounterType(1)), CmdClassifier: &cl},
-			Payload: model.PayloadType{Cmd: []model.CmdType{{NodeManagementDetailedDiscoveryData: regDiscovery(regDev(p), nil, []string{"0", "1", "2"})}}}})
+			Payload: model.PayloadType{Cmd: []model.CmdType{{NodeManagementDetailedDiscoveryData: regDiscovery(regDev(p), nil, regRemoteEnts)}}}})
 	}
 	w.settle()
 	w.log.take()
@@ -299,17 +302,60 @@ func (w *regWorld) resultFor(p int, ctr uint64) string {
 	return res
 }
 
-// addr builds a feature address; devKind 0 = device part omitted, 99 = the local device, k = device of peer k
+// addr builds a feature address; devKind 0 = device part omitted, 99 = the local device, 77 = an unknown device string,
+// k = device of peer k
 func regAddr(devKind int, ent string, fid uint) *model.FeatureAddressType {
 	a := &model.FeatureAddressType{Entity: spine.NewAddressEntityType(regParseEnt(ent)), Feature: util.Ptr(model.AddressFeatureType(fid))}
 	switch devKind {
 	case 0:
 	case 99:
 		a.Device = util.Ptr(model.AddressDeviceType("HEMS"))
+	case 77:
+		a.Device = util.Ptr(model.AddressDeviceType("OTHER")) // a device string nobody has
 	default:
 		a.Device = util.Ptr(model.AddressDeviceType(regDev(devKind)))
 	}
 	return a
+}
+
+// regDecor splits the optional address decorations off an op: "sd<k>" = device part of the SERVER address
+// (default 99 = the local device's name), "cd<k>" = device part of the CLIENT address of a request call (default: the
+// sender's device). k as in regAddr. The model ignores them, as the code as written resolves by entity and feature.
+func regDecor(f []string) (rest []string, sd, cd int) {
+	sd, cd = 99, -1
+	for _, t := range f {
+		switch {
+		case len(t) > 2 && t[:2] == "sd" && t[2] >= '0' && t[2] <= '9':
+			sd, _ = strconv.Atoi(t[2:])
+		case len(t) > 2 && t[:2] == "cd" && t[2] >= '0' && t[2] <= '9':
+			cd, _ = strconv.Atoi(t[2:])
+		default:
+			rest = append(rest, t)
+		}
+	}
+	return
+}
+
+// regCallCmd builds the node-management call of a sub / bind / unsub / unbind op (decorations stripped from f)
+func regCallCmd(f []string, sd, cd int) model.CmdType {
+	atoi := func(i int) int { n, _ := strconv.Atoi(f[i]); return n }
+	switch f[0] {
+	case "sub", "bind":
+		p, ce, cf, se, sf, ty := atoi(1), f[2], uint(atoi(3)), f[4], uint(atoi(5)), atoi(6)
+		if cd < 0 {
+			cd = p
+		}
+		if f[0] == "sub" {
+			return model.CmdType{NodeManagementSubscriptionRequestCall: spine.NewNodeManagementSubscriptionRequestCallType(regAddr(cd, ce, cf), regAddr(sd, se, sf), regTypeNames[ty])}
+		}
+		return model.CmdType{NodeManagementBindingRequestCall: spine.NewNodeManagementBindingRequestCallType(regAddr(cd, ce, cf), regAddr(sd, se, sf), regTypeNames[ty])}
+	default:
+		cdev, ce, cf, se, sf := atoi(2), f[3], uint(atoi(4)), f[5], uint(atoi(6))
+		if f[0] == "unsub" {
+			return model.CmdType{NodeManagementSubscriptionDeleteCall: spine.NewNodeManagementSubscriptionDeleteCallType(regAddr(cdev, ce, cf), regAddr(sd, se, sf))}
+		}
+		return model.CmdType{NodeManagementBindingDeleteCall: spine.NewNodeManagementBindingDeleteCallType(regAddr(cdev, ce, cf), regAddr(sd, se, sf))}
+	}
 }
 
 func regEntriesOf[T any](list []T, q int, get func(T) (uint64, api.FeatureLocalInterface, api.FeatureRemoteInterface)) []regEntry {
@@ -446,6 +492,8 @@ func (w *regWorld) specRequestOk(p int, ce string, cf uint, se string, sf uint, 
 	return regRoleOk(sv, "server") && regTypeOk(sv, typ) && regRoleOk(cl, "client") && regTypeOk(cl, typ)
 }
 
+func regAtoi(x string) int { n, _ := strconv.Atoi(x); return n }
+
 func regPair(p int, ce string, cf uint, se string, sf uint) string {
 	return regEntry{peer: p, ce: ce, cf: cf, se: se, sf: sf}.pair()
 }
@@ -480,6 +528,10 @@ func regJudgeInvariants(r *h.Report, done []string, subs, binds []regEntry) {
 type regStats struct {
 	subOk, subAll, bindOk, bindAll, delOk, delAll, fanNon, fanAll, faults int
 	wrOk, wrAll, vOk, vAll, fireOk, fireAll                               int // composed world only
+	lastEvents                                                            map[string]int // removal events of the last teardown
+	lastBop                                                               *regBop
+	lastPasses                                                            []string // the passes of the last teardown, as model ops
+	injected                                                              int
 }
 
 // runRegHistory executes ops on a fresh world. d == nil: monitor only (probe phase).
@@ -518,6 +570,19 @@ func runRegHistoryTd(r *h.Report, d *h.Driver, ev *regEvents, base int, ops []st
 		if len(f) == 0 {
 			continue
 		}
+		var inj []string // "<teardown> @<kind>:<idx> <operation of another peer>"
+		injKind, injIdx := "", 0
+		for i, t := range f {
+			if strings.HasPrefix(t, "@") {
+				k := strings.LastIndex(t, ":")
+				injKind = t[1:k]
+				injIdx, _ = strconv.Atoi(t[k+1:])
+				inj, f = f[i+1:], f[:i]
+				break
+			}
+		}
+		tearLine := strings.Join(f, " ")
+		f, sd, cdSub := regDecor(f)
 		atoi := func(i int) int { n, _ := strconv.Atoi(f[i]); return n }
 		requester := 0
 		switch f[0] {
@@ -538,11 +603,7 @@ func runRegHistoryTd(r *h.Report, d *h.Driver, ev *regEvents, base int, ops []st
 		switch f[0] {
 		case "sub", "bind":
 			p, ce, cf, se, sf, ty := atoi(1), f[2], uint(atoi(3)), f[4], uint(atoi(5)), atoi(6)
-			if f[0] == "sub" {
-				impl = w.call(p, model.CmdType{NodeManagementSubscriptionRequestCall: spine.NewNodeManagementSubscriptionRequestCallType(regAddr(p, ce, cf), regAddr(99, se, sf), regTypeNames[ty])})
-			} else {
-				impl = w.call(p, model.CmdType{NodeManagementBindingRequestCall: spine.NewNodeManagementBindingRequestCallType(regAddr(p, ce, cf), regAddr(99, se, sf), regTypeNames[ty])})
-			}
+			impl = w.call(p, regCallCmd(f, sd, cdSub))
 			w.settle()
 			postS, postB := w.snapshot()
 			pair := regPair(p, ce, cf, se, sf)
@@ -601,12 +662,10 @@ func runRegHistoryTd(r *h.Report, d *h.Driver, ev *regEvents, base int, ops []st
 		case "unsub", "unbind":
 			p, cd, ce, cf, se, sf := atoi(1), atoi(2), f[3], uint(atoi(4)), f[5], uint(atoi(6))
 			prop, pre := "C08", preS
-			if f[0] == "unsub" {
-				impl = w.call(p, model.CmdType{NodeManagementSubscriptionDeleteCall: spine.NewNodeManagementSubscriptionDeleteCallType(regAddr(cd, ce, cf), regAddr(99, se, sf))})
-			} else {
+			if f[0] == "unbind" {
 				prop, pre = "C09", preB
-				impl = w.call(p, model.CmdType{NodeManagementBindingDeleteCall: spine.NewNodeManagementBindingDeleteCallType(regAddr(cd, ce, cf), regAddr(99, se, sf))})
 			}
+			impl = w.call(p, regCallCmd(f, sd, cdSub))
 			w.settle()
 			postS, postB := w.snapshot()
 			post, otherPre, otherPost := postS, preB, postB
@@ -623,9 +682,12 @@ func runRegHistoryTd(r *h.Report, d *h.Driver, ev *regEvents, base int, ops []st
 			foreign := false
 			for _, e := range removed {
 				switch {
-				case e.peer != p:
+				case e.peer != p && !own:
 					foreign = true
 					r.SpecFail(prop+"/delete-by-named-device", done, fmt.Sprintf("%s sent by peer %d removed %s, an entry of peer %d", op, p, e, e.peer))
+				case e.peer != p:
+					foreign = true
+					r.SpecFail(prop+"/delete-removes-other-peers-entry", done, fmt.Sprintf("%s sent by peer %d with its own / an omitted device part removed %s, an entry of peer %d", op, p, e, e.peer))
 				case !own || e.pair() != pair:
 					what := map[string]string{"C08": "C08/unsubscribe-removes-other-entry", "C09": "C09/unbind-removes-other-binding"}[prop]
 					r.SpecFail(what, done, fmt.Sprintf("%s removed %s, which is not the addressed entry (%s, own device part: %v)", op, e, pair, own))
@@ -650,6 +712,34 @@ func runRegHistoryTd(r *h.Report, d *h.Driver, ev *regEvents, base int, ops []st
 			p := atoi(1)
 			ent := ""
 			existed := true
+			var bop *regBop
+			if inj != nil {
+				bop = w.prepareB(inj)
+				regCore.arm(injKind, injIdx, bop.fire)
+			} else {
+				regCore.arm("", 0, nil)
+			}
+			// entities of p a teardown walks over (for the attribution of a lost binding to the known any-peer defect)
+			anyPeerEnts := map[string]bool{}
+			var passEnts []string
+			if f[0] == "drop" {
+				for _, e := range regRemoteEnts {
+					anyPeerEnts[e] = !w.gone[p][e]
+					if !w.gone[p][e] {
+						passEnts = append(passEnts, e)
+					}
+				}
+			} else {
+				anyPeerEnts[f[2]] = true
+				passEnts = []string{f[2]}
+			}
+			st.lastPasses = nil
+			for _, e := range passEnts {
+				st.lastPasses = append(st.lastPasses, fmt.Sprintf("subspass %d %s", p, e))
+			}
+			for _, e := range passEnts {
+				st.lastPasses = append(st.lastPasses, fmt.Sprintf("bindspass %d %s", p, e))
+			}
 			if f[0] == "drop" {
 				w.l.RemoveRemoteDeviceConnection(regSki(p))
 				w.alive[p] = false
@@ -665,6 +755,19 @@ func runRegHistoryTd(r *h.Report, d *h.Driver, ev *regEvents, base int, ops []st
 					NodeManagementDetailedDiscoveryData: regDiscovery(regDev(p), &removed, []string{ent})}}}})
 				w.gone[p][ent] = true
 			}
+			seen, fired := regCore.disarm()
+			st.lastEvents = seen
+			if bop != nil {
+				if !fired {
+					// the event point does not exist in this run: the operation follows the teardown
+					bop.fire()
+				}
+				if !bop.join() {
+					r.SpecFail("C10/operation-of-other-peer-blocked-by-teardown", done, fmt.Sprintf("%s, started while %s was in progress, had not returned %v after the teardown", bop.line, tearLine, regJoinWait))
+					return false
+				}
+				w.out = append(w.out, w.log.take()...)
+			}
 			impl = "done"
 			w.settle()
 			postS, postB := w.snapshot()
@@ -672,6 +775,23 @@ func runRegHistoryTd(r *h.Report, d *h.Driver, ev *regEvents, base int, ops []st
 			// SPEC (C10): all and only the entries that refer to the removed device / entity disappear
 			refers := func(e regEntry) bool { return e.peer == p && (f[0] == "drop" || e.ce == ent) }
 			remS, remB := regDiff(preS, postS), regDiff(preB, postB)
+			addS, addB := regDiff(postS, preS), regDiff(postB, preB)
+			nRemS, nRemB := len(remS), len(remB)
+			if bop != nil {
+				remS, remB, addS, addB = bop.judge(r, done, tearLine, w, refers, preS, preB, remS, remB, addS, addB, anyPeerEnts)
+				st.lastBop = bop
+				kind = f[0] + "@" + injKind + ":" + bop.f[0]
+				// every entry that left a registry did so with an event: count by sizes, so that an entry granted during
+				// the teardown and removed again, or removed and granted again, is counted too
+				gS, gB := 0, 0
+				if bop.answer == "ok" && bop.f[0] == "sub" {
+					gS = 1
+				}
+				if bop.answer == "ok" && bop.f[0] == "bind" {
+					gB = 1
+				}
+				nRemS, nRemB = len(preS)+gS-len(postS)+len(addS), len(preB)+gB-len(postB)+len(addB)
+			}
 			for i, rem := range [][]regEntry{remS, remB} {
 				what := []string{"subscription", "binding"}[i]
 				for _, e := range rem {
@@ -687,12 +807,12 @@ func runRegHistoryTd(r *h.Report, d *h.Driver, ev *regEvents, base int, ops []st
 					r.SpecFail("C10/teardown-leaves-entry", done, fmt.Sprintf("after %s the entry %s is still registered", op, e))
 				}
 			}
-			if len(regDiff(postS, preS))+len(regDiff(postB, preB)) > 0 {
-				r.SpecFail("C10/teardown-adds-entry", done, op)
+			if len(addS)+len(addB) > 0 {
+				r.SpecFail("C10/teardown-adds-entry", done, fmt.Sprintf("%s: new entries %s %s", op, regShow(addS), regShow(addB)))
 			}
 			// a removal event for each registry entry that disappeared and for the device / entity
-			if evs["sub-"] != len(remS) || evs["bind-"] != len(remB) {
-				r.SpecFail("C10/teardown-events", done, fmt.Sprintf("%s removed %d subscriptions and %d bindings, events: %v", op, len(remS), len(remB), evs))
+			if evs["sub-"] != nRemS || evs["bind-"] != nRemB {
+				r.SpecFail("C10/teardown-events", done, fmt.Sprintf("%s removed %d subscriptions and %d bindings, events: %v", op, nRemS, nRemB, evs))
 			}
 			if f[0] == "drop" && evs["device-"] != 1 || f[0] == "dropent" && evs["entity-"] != h.B2i(existed) {
 				r.SpecFail("C10/teardown-events", done, fmt.Sprintf("%s: device/entity removal events: %v", op, evs))
@@ -711,10 +831,12 @@ func runRegHistoryTd(r *h.Report, d *h.Driver, ev *regEvents, base int, ops []st
 			}
 			regJudgeInvariants(r, done, postS, postB)
 			if w.td != nil {
-				w.td.afterTeardown(r, done, op, p, ent)
+				w.td.afterTeardown(r, done, op, p, ent, existed)
 			}
 			st.faults++
-			kind = f[0]
+			if kind == "" {
+				kind = f[0]
+			}
 		case "subs", "binds":
 			q := atoi(1)
 			if q > np {
@@ -878,6 +1000,13 @@ func runRegHistoryTd(r *h.Report, d *h.Driver, ev *regEvents, base int, ops []st
 			return true
 		}
 		r.Eval(kind, "")
+		if d != nil && inj != nil {
+			st.injected++
+			if !regModelBothOrders(r, d, done, w, tearLine, st.lastBop, st.lastPasses) {
+				return false
+			}
+			continue
+		}
 		if d != nil {
 			want := d.Ask(op)
 			if f[0] == "subs" || f[0] == "binds" {
@@ -919,59 +1048,98 @@ func regCanonIDs(list string, seen map[string]int) string {
 type regRng interface{ Intn(int) int }
 
 // valid (client entity, client feature, server entity, server feature, type) tuples
-var regValid = [][5]int{{1, 1, 1, 1, 1}, {1, 1, 2, 1, 1}, {2, 1, 1, 1, 1}, {2, 1, 2, 1, 1}, {1, 2, 1, 2, 2}, {1, 3, 1, 1, 1}, {1, 3, 1, 2, 2},
-	{1, 3, 2, 1, 1}, {1, 3, 2, 2, 4}, {0, 0, 0, 0, 100}, {1, 3, 0, 1, 3}}
+type regTup struct {
+	ce     string
+	cf     int
+	se     string
+	sf, ty int
+}
+
+var regValid = []regTup{{"1", 1, "1", 1, 1}, {"1", 1, "2", 1, 1}, {"2", 1, "1", 1, 1}, {"2", 1, "2", 1, 1}, {"1", 2, "1", 2, 2}, {"1", 3, "1", 1, 1}, {"1", 3, "1", 2, 2},
+	{"1", 3, "2", 1, 1}, {"1", 3, "2", 2, 4}, {"0", 0, "0", 0, 100}, {"1", 3, "0", 1, 3}, {"1.1", 1, "1", 1, 1}, {"1.1", 1, "2", 1, 1}}
+
+// regDecorate appends address decorations to a request: most requests name the devices as a well-behaved peer does;
+// some omit the (optional) device part of the server address, some carry an unknown or another peer's device string.
+func regDecorate(rng regRng, op string, np int, clientToo bool) string {
+	switch rng.Intn(10) {
+	case 0, 1:
+		op += " sd0"
+	case 2:
+		op += " sd77"
+	case 3:
+		op += fmt.Sprintf(" sd%d", 1+rng.Intn(np))
+	}
+	if clientToo {
+		switch rng.Intn(12) {
+		case 0:
+			op += " cd0"
+		case 1:
+			op += " cd77"
+		case 2:
+			op += fmt.Sprintf(" cd%d", 1+rng.Intn(np))
+		}
+	}
+	return op
+}
 
 func genRegHistory(rng regRng, n, np int, faults bool) []string {
 	ops := []string{fmt.Sprintf("peers %d", np)}
 	type tup struct {
-		p          int
-		ce, cf     int
-		se, sf, ty int
+		p int
+		regTup
 	}
-	var granted []tup // remembered requests, to aim deletes at existing entries
+	var granted []tup // remembered requests, to aim deletes, repeated requests and writes at existing entries
 	dropped := 0
+	ents := []string{"1", "1", "1", "2", "2", "1.1", "3"}
 	for i := 0; i < n; i++ {
 		p := 1 + rng.Intn(np)
-		ce, se := []int{1, 1, 1, 2, 2, 3}[rng.Intn(6)], []int{1, 1, 1, 2, 2, 3}[rng.Intn(6)]
-		cf, sf := 1+rng.Intn(4), 1+rng.Intn(3)
-		ty := []int{1, 1, 1, 2, 2, 4, 0}[rng.Intn(7)]
+		t := regTup{ents[rng.Intn(len(ents))], 1 + rng.Intn(4), ents[rng.Intn(len(ents))], 1 + rng.Intn(3), []int{1, 1, 1, 2, 2, 4, 0}[rng.Intn(7)]}
 		if rng.Intn(10) < 7 {
-			v := regValid[rng.Intn(len(regValid))]
-			ce, cf, se, sf, ty = v[0], v[1], v[2], v[3], v[4]
+			t = regValid[rng.Intn(len(regValid))]
 		}
-		del := func() (int, int, int, int, int, int) {
+		if len(granted) > 0 && rng.Intn(6) == 0 {
+			// somebody asks for a pair / server feature that was asked for before (duplicates, bound features)
+			t = granted[rng.Intn(len(granted))].regTup
+			if rng.Intn(2) == 0 {
+				for _, v := range regValid {
+					if v.se == t.se && v.sf == t.sf && rng.Intn(2) == 0 {
+						t = v
+					}
+				}
+			}
+		}
+		del := func() (int, int, regTup) {
 			cd := []int{0, p, 1 + rng.Intn(np), p}[rng.Intn(4)]
 			if len(granted) > 0 && rng.Intn(10) < 7 {
 				g := granted[rng.Intn(len(granted))]
 				if rng.Intn(4) > 0 {
-					return g.p, []int{0, g.p, 1 + rng.Intn(np), g.p}[rng.Intn(4)], g.ce, g.cf, g.se, g.sf
+					return g.p, []int{0, g.p, 1 + rng.Intn(np), g.p}[rng.Intn(4)], g.regTup
 				}
 				// somebody else asks, possibly naming the owner's device
 				q := 1 + rng.Intn(np)
-				return q, []int{0, g.p, q}[rng.Intn(3)], g.ce, g.cf, g.se, g.sf
+				return q, []int{0, g.p, q}[rng.Intn(3)], g.regTup
 			}
-			return p, cd, ce, cf, se, sf
+			return p, cd, t
 		}
 		switch k := rng.Intn(24); {
 		case k < 5:
-			ops = append(ops, fmt.Sprintf("sub %d %d %d %d %d %d", p, ce, cf, se, sf, ty))
-			granted = append(granted, tup{p, ce, cf, se, sf, ty})
+			ops = append(ops, regDecorate(rng, fmt.Sprintf("sub %d %s %d %s %d %d", p, t.ce, t.cf, t.se, t.sf, t.ty), np, true))
+			granted = append(granted, tup{p, t})
 		case k < 8:
-			q, cd, a, b, c, e := del()
-			ops = append(ops, fmt.Sprintf("unsub %d %d %d %d %d %d", q, cd, a, b, c, e))
+			q, cd, g := del()
+			ops = append(ops, regDecorate(rng, fmt.Sprintf("unsub %d %d %s %d %s %d", q, cd, g.ce, g.cf, g.se, g.sf), np, false))
 		case k < 12:
-			ops = append(ops, fmt.Sprintf("bind %d %d %d %d %d %d", p, ce, cf, se, sf, ty))
-			granted = append(granted, tup{p, ce, cf, se, sf, ty})
+			ops = append(ops, regDecorate(rng, fmt.Sprintf("bind %d %s %d %s %d %d", p, t.ce, t.cf, t.se, t.sf, t.ty), np, true))
+			granted = append(granted, tup{p, t})
 		case k < 15:
-			q, cd, a, b, c, e := del()
-			ops = append(ops, fmt.Sprintf("unbind %d %d %d %d %d %d", q, cd, a, b, c, e))
+			q, cd, g := del()
+			ops = append(ops, regDecorate(rng, fmt.Sprintf("unbind %d %d %s %d %s %d", q, cd, g.ce, g.cf, g.se, g.sf), np, false))
 		case k == 15 && faults && i > n/3 && dropped < np-1:
 			if rng.Intn(2) == 0 {
 				ops = append(ops, fmt.Sprintf("drop %d", p))
 				dropped++
 			} else {
-				ops = append(ops, fmt.Sprintf("dropent %d %d", p, 1+rng.Intn(2)))
+				ops = append(ops, fmt.Sprintf("dropent %d %s", p, []string{"1", "1.1", "2"}[rng.Intn(3)]))
 			}
 		case k < 18:
 			ops = append(ops, fmt.Sprintf("%s %d", []string{"subs", "binds"}[rng.Intn(2)], 1+rng.Intn(np)))
@@ -981,13 +1149,13 @@ func genRegHistory(rng regRng, n, np int, faults bool) []string {
 		case k < 22 && len(granted) > 0:
 			// a subscribed / bound feature's server changes, or a (hopefully bound) client writes
 			g := granted[rng.Intn(len(granted))]
-			if rng.Intn(2) == 0 && g.se != 0 {
-				ops = append(ops, fmt.Sprintf("write %d %d %d %d %d", g.p, g.ce, g.cf, g.se, g.sf))
+			if rng.Intn(2) == 0 && g.se != "0" {
+				ops = append(ops, fmt.Sprintf("write %d %s %d %s %d", g.p, g.ce, g.cf, g.se, g.sf))
 			} else {
-				ops = append(ops, fmt.Sprintf("notify %d %d", g.se, g.sf))
+				ops = append(ops, fmt.Sprintf("notify %s %d", g.se, g.sf))
 			}
 		default:
-			ops = append(ops, fmt.Sprintf("write %d %d %d %d %d", p, ce, cf, []int{1, 2}[rng.Intn(2)], 1+rng.Intn(3)))
+			ops = append(ops, fmt.Sprintf("write %d %s %d %d %d", p, t.ce, t.cf, []int{1, 2}[rng.Intn(2)], 1+rng.Intn(3)))
 		}
 	}
 	return ops
@@ -1073,6 +1241,12 @@ func TestRegistry(t *testing.T) {
 	run([]string{"peers 3", "sub 1 0 0 0 0 100", "sub 2 0 0 0 0 100", "sub 3 0 0 0 0 100", "sub 1 0 0 0 0 100", "notify 0 0", "unsub 2 0 0 0 0 0", "notify 0 0", "subs 1", "subs 2", "subs 3"})
 	run([]string{"peers 2", "bind 1 1 1 1 1 1", "sub 1 1 1 1 1 1", "sub 2 1 1 1 1 1", "write 1 1 1 1 1", "write 2 1 1 1 1", "update 1 1", "unbind 1 1 1 1 1 1", "write 1 1 1 1 1"})
 	run([]string{"peers 2", "sub 1 1 1 1 1 2", "sub 1 1 4 1 1 1", "sub 1 1 1 1 3 1", "sub 1 3 1 1 1 1", "sub 1 1 1 3 1 1", "bind 1 1 3 2 2 4", "bind 2 1 3 2 2 4", "unbind 2 0 1 3 2 2", "binds 1"})
+	// the optional device part of the SERVER address: omitted, unknown, another peer's — the addressed feature is the
+	// resolved one (entity and feature), so duplicates and second bindings must still be refused
+	run([]string{"peers 2", "bind 1 1 1 1 1 1", "bind 2 1 1 1 1 1 sd0", "bind 2 1 1 1 1 1 sd77", "bind 2 1 1 1 1 1 sd1", "binds 1", "binds 2", "unbind 1 0 1 1 1 1 sd0", "bind 2 1 1 1 1 1 sd0", "binds 2"})
+	run([]string{"peers 2", "sub 1 1 1 1 1 1 sd0", "sub 1 1 1 1 1 1", "sub 1 1 1 1 1 1 sd77 cd0", "sub 2 1 1 1 1 1 cd1", "subs 1", "subs 2", "notify 1 1", "unsub 1 0 1 1 1 1 sd2", "subs 1"})
+	// parent and child entities with identical feature numbers
+	run([]string{"peers 2", "sub 1 1 1 1 1 1", "sub 1 1.1 1 1 1 1", "bind 1 1.1 1 1 1 1", "sub 2 1.1 1 1 1 1", "dropent 1 1.1", "subs 1", "subs 2", "binds 1", "sub 1 1.1 1 1 1 1", "dropent 2 1", "subs 2", "notify 1 1"})
 	rng := h.Rng(8)
 	hist := h.Scale(250, 2500)
 	for i := 0; i < hist; i++ {
@@ -1088,7 +1262,7 @@ func TestRegistry(t *testing.T) {
 			p := 1 + rng.Intn(np)
 			fault := fmt.Sprintf("drop %d", p)
 			if rng.Intn(2) == 0 {
-				fault = fmt.Sprintf("dropent %d %d", p, 1+rng.Intn(2))
+				fault = fmt.Sprintf("dropent %d %s", p, []string{"1", "1.1", "2"}[rng.Intn(3)])
 			}
 			ops := append(append(append(append([]string{}, b[:pos]...), fault), regObserve(np)...), b[pos:]...)
 			ops = append(ops, regObserve(np)...)
